@@ -168,16 +168,16 @@ P("C12",
   "creation reports (price, tick), consumes no id and leaves every existing record, every view and both side indexes unchanged; the grid invariant (every "
   "limit order's price is a multiple of the tick) is re-established by placements and by modifications, with modify prices UNCONSTRAINED in the isolating harness.",
   [book(f"c12_create_tick{t}_m2", f"create_order(any side, any volume, any u32 price | market), tick {t}", covers=["cover.limit_order_created"] + (["cover.creation_rejected"] if t > 1 else []), timeout=600,
-        tiers=("quick", "thorough") if t in (1, 2, 3, 4, 7, 8, 10) else ("thorough",)) for t in range(1, 11)]
+        tiers=("quick", "thorough")) for t in range(1, 11)]
   + [book("c12_grid_place_tick3_off_m2", "placement (any kind) on a tick-3 book keeps every price on the grid; views == recomputation", covers=["cover.placed_while_disabled"]),
      book("c12_grid_modify_price_tick3_off_m2", "modify to any ON-grid price on a tick-3 book (trading off) keeps the grid; views == recomputation", covers=["cover.modify_non_active"]),
      book("c12_grid_modify_ongrid_tick3_m2", "same with the trading flag symbolic and every option shape", covers=["cover.modify_trades", "cover.modify_non_active"], tiers=("thorough",), timeout=3000),
      book("c12_modify_any_price_tick3_m2", "modify_order with ANY new price on a tick-3 book keeps every resting price on the grid", role="C12.modify_offgrid_price", covers=["cover.modify_non_active"], timeout=600),
      book("c12_modify_any_price_tick2_m2", "same on a tick-2 book (2 does not divide 2^32-1: MAX - price, the bid-side queue key, is off the grid)", role="C12.modify_offgrid_price", covers=["cover.modify_non_active"], timeout=600),
      book("c12_modify_any_price_tick10_m2", "same on a tick-10 book", role="C12.modify_offgrid_price", covers=["cover.modify_non_active"], timeout=600),
-     book("c12_modify_any_price_tick8_m2", "same on a tick-8 book (power of two)", role="C12.modify_offgrid_price", covers=["cover.modify_non_active"], timeout=600, tiers=("thorough",)),
+     book("c12_modify_any_price_tick8_m2", "same on a tick-8 book (power of two)", role="C12.modify_offgrid_price", covers=["cover.modify_non_active"], timeout=600),
      book("c12_modify_any_price_tick7_on_m2", "ANY new price, every option shape, trading flag symbolic, tick 7", role="C12.modify_offgrid_price", covers=["cover.modify_non_active", "cover.modify_trades"], timeout=3000, tiers=("thorough",))],
-  bounds="table of 2 arbitrary entries (+1 created), ticks 1..10 enumerated (quick: 1,2,3,4,7,8,10), full-width prices incl. 0 and 2^32-1",
+  bounds="table of 2 arbitrary entries (+1 created), ticks 1..10 each enumerated in both tiers, full-width prices incl. 0 and 2^32-1",
   outside="ticks > 10; tables > 2 entries; environment-level creation is decided by C10's submission harnesses (same Ok <=> on-grid / no-trace assertions through Env::place_order)")
 
 P("C05",
